@@ -12,7 +12,7 @@ from ..core import Ctx, Outcome, Violation
 from ..terms import clear_typelib_caches
 
 _N = [0]
-FORMS = ["function", "method", "instance", "class", "closure", "method_after_unbound"]
+FORMS = ["function", "method", "instance", "class", "closure", "method_after_unbound", "slotted_instance_after_dead"]
 
 
 def tokens(npos_max, names):
@@ -78,6 +78,17 @@ def build_callable(sig, form, toks):
         dec = ", ".join(f"D{k[1:]}" for k in sorted(enums)) or "None"
         src = (f"def make({ens}):\n    def f({params}):\n        'doc of f'\n        return {ret}\n    return f\n"
                f"decoy = make({dec})\nf = make({ens if enums else 'None'})\n")
+    elif form == "slotted_instance_after_dead":
+        # two callable classes without __dict__ / __weakref__; an instance of the first (annotated with other Enum classes) is
+        # bound, called and dropped, then an instance of the second is made -- CPython hands out the same address again
+        decoys = {f"D{k[1:]}": enum.Enum(f"X{k[1:]}", {f"m{j}": t for j, t in enumerate(toks)}, module=modname) for k in enums}
+        mod.__dict__.update(decoys)
+        dparams = params
+        for k in sorted(enums, key=len, reverse=True):
+            dparams = dparams.replace(f": {k}", f": D{k[1:]}")
+        src = (f"class C0:\n    __slots__ = ()\n    def __call__(self, {dparams}):\n        return {ret}\n"
+               f"class C:\n    __slots__ = ()\n    def __call__(self, {params}):\n        'doc of call'\n        return {ret}\n"
+               f"decoy = C0()\nf = None\n")
     elif form == "class":
         src = (f"class f:\n    'doc of class'\n{body_ann}    def __init__(self, {params}):\n        self.got = {ret}\n")
     elif form == "class_new":
@@ -110,6 +121,23 @@ def _get_built(sig, form, entry):
                 d(mod.decoy_self, *[f"a{j}" for j in range(1, 9)])
             except Exception:
                 pass
+        if form == "slotted_instance_after_dead":
+            try:
+                d = binding.bind(mod.decoy) if entry == "bind" else binding.wrap(mod.decoy)
+                d(*[f"a{j}" for j in range(1, 9)])
+            except Exception:
+                pass
+            d = None
+            addr = id(mod.decoy)
+            del mod.__dict__["decoy"]
+            keep = []
+            for _ in range(64):                 # the freed block is normally handed out at once; a few tries cost nothing
+                f = mod.C()
+                if id(f) == addr:
+                    break
+                keep.append(f)
+            mod.f = f
+            del keep
         try:
             if entry == "bind":
                 g = binding.bind(f)
